@@ -55,6 +55,8 @@ class RepoIndex:
         self.class_bases = {}
         self.modules = {}  # module -> (path, src, tree)
         self.parse_errors = []
+        self.trees = {}  # relative path -> module AST
+        self.class_nodes = {}  # class name -> ClassDef
         overrides = overrides or {}
         root = os.path.join(self.repo, PKG)
         for dp, dn, fn in os.walk(root):
@@ -80,6 +82,7 @@ class RepoIndex:
                 if mod.endswith(".__init__"):
                     mod = mod[: -len(".__init__")]
                 self.modules[mod] = (rel, src, tree)
+                self.trees[rel] = tree
                 for n in tree.body:
                     if isinstance(n, ast.FunctionDef):
                         fi = FuncInfo(mod + "." + n.name, n, mod, None, rel, src)
@@ -87,6 +90,7 @@ class RepoIndex:
                         self.by_name.setdefault(n.name, []).append(fi)
                     elif isinstance(n, ast.ClassDef):
                         self.classes.setdefault(n.name, {})
+                        self.class_nodes[n.name] = n
                         self.class_bases[n.name] = [b.id if isinstance(b, ast.Name) else getattr(b, "attr", "?") for b in n.bases]
                         for m in n.body:
                             if isinstance(m, ast.FunctionDef):
